@@ -1,8 +1,181 @@
 //! Verification hook (compiled only with `--cfg quinn_rs_quinn_verif`).
+//!
+//! Component `datagrams`: the real `DatagramState` *inside a real client `Connection`* (created by
+//! `Endpoint::connect`, never driven, no packet is ever built), so that the public
+//! `Datagrams::{send, max_size, recv, send_buffer_space}` run unchanged together with
+//! `DatagramState::{received, write, drop_oversized}`. Configuration that normally arrives
+//! through the handshake (the peer's `max_datagram_frame_size`, the path MTU estimate) is
+//! written into the connection's own fields by the hook.
+//!
+//! Every observation is `code :: [outgoing_total, outgoing.len(), recv_buffered, incoming.len(),
+//! send_blocked] ++ payload` (read-only probes of the `pub(super)` fields).
+//!
+//! ops:
+//!   [0, recv_buf|-1, send_buf, peer_max_datagram_frame_size|-1, current_mtu, cid_len]
+//!        first op of a case (any other first op: `[-2]` for every op)               -> code 0
+//!   [1, drop, b...]           Datagrams::send(bytes, drop != 0)
+//!                             -> 0 Ok | 1 UnsupportedByPeer | 2 Disabled | 3 TooLarge | 4 Blocked (payload = returned bytes)
+//!   [2]                       Datagrams::max_size()            -> code 0, payload [v] | code 1 (None)
+//!   [3, prefix_len, max_size] DatagramState::write(buf(prefix_len zero bytes), max_size)
+//!                             -> code wrote(0/1), payload = bytes appended to buf
+//!   [4, window|-1, b...]      DatagramState::received(Datagram{b}, &window)
+//!                             -> code 0, payload [was_empty] | code 1 PROTOCOL_VIOLATION | code 9 other error
+//!   [5]                       Datagrams::recv()                -> code 1, payload bytes | code 0 (None)
+//!   [6, max_payload]          DatagramState::drop_oversized    -> code dropped_any(0/1)
+//!   [7]                       Datagrams::send_buffer_space()   -> code 0, payload [v]
+//!   [8, mtu]                  replace the path's MtuDiscovery by `disabled(mtu, mtu)`   -> code 0
+//!   [9, v|-1]                 set the peer's max_datagram_frame_size                    -> code 0
+//!   anything else                                              -> [-1]
 #![allow(missing_docs, dead_code, unused_imports, unreachable_pub, clippy::all)]
 use super::{Ops, Outs};
+use crate::connection::mtud::MtuDiscovery;
+use crate::connection::{Connection, SendDatagramError};
+use crate::frame::Datagram;
+use crate::{
+    ClientConfig, ConnectionId, Endpoint, EndpointConfig, Instant, TransportConfig,
+    TransportErrorCode, VarInt,
+};
+use bytes::Bytes;
+use std::net::{Ipv4Addr, SocketAddr};
+use std::sync::Arc;
+
+fn new_connection(
+    recv_buf: Option<usize>,
+    send_buf: usize,
+    peer_max: Option<u64>,
+    mtu: u16,
+    cid_len: usize,
+) -> Connection {
+    let mut transport = TransportConfig::default();
+    transport.datagram_receive_buffer_size(recv_buf);
+    transport.datagram_send_buffer_size(send_buf);
+    let provider = Arc::new(rustls::crypto::ring::default_provider());
+    let tls = rustls::ClientConfig::builder_with_provider(provider)
+        .with_protocol_versions(&[&rustls::version::TLS13])
+        .unwrap()
+        .with_root_certificates(rustls::RootCertStore::empty())
+        .with_no_client_auth();
+    let crypto = crate::crypto::rustls::QuicClientConfig::try_from(tls).unwrap();
+    let mut client = ClientConfig::new(Arc::new(crypto));
+    client.transport_config(Arc::new(transport));
+    client.initial_dst_cid_provider(Arc::new(move || ConnectionId::new(&vec![7u8; cid_len])));
+    let mut endpoint = Endpoint::new(Arc::new(EndpointConfig::default()), None, true);
+    let remote = SocketAddr::new(Ipv4Addr::new(127, 0, 0, 1).into(), 4433);
+    let (_, mut conn) = endpoint
+        .connect(Instant::now(), client, remote, "localhost")
+        .unwrap();
+    conn.peer_params.max_datagram_frame_size = peer_max.map(|v| VarInt::from_u64(v).unwrap());
+    conn.path.mtud = MtuDiscovery::disabled(mtu, mtu);
+    conn
+}
+
+fn obs(code: i128, conn: &Connection, payload: &[i128]) -> Vec<i128> {
+    let d = &conn.datagrams;
+    let mut o = vec![
+        code,
+        d.outgoing_total as i128,
+        d.outgoing.len() as i128,
+        d.recv_buffered as i128,
+        d.incoming.len() as i128,
+        d.send_blocked as i128,
+    ];
+    o.extend_from_slice(payload);
+    o
+}
+
+fn bytes_of(v: &[i128]) -> Bytes {
+    Bytes::from(v.iter().map(|x| *x as u8).collect::<Vec<u8>>())
+}
+
+fn as_ints(b: &[u8]) -> Vec<i128> {
+    b.iter().map(|x| *x as i128).collect()
+}
+
+fn opt(v: i128) -> Option<usize> {
+    if v < 0 { None } else { Some(v as usize) }
+}
+
+fn datagrams(ops: &Ops) -> Outs {
+    let mut out = Outs::new();
+    let Some(first) = ops.first() else {
+        return out;
+    };
+    if first.len() != 6 || first[0] != 0 {
+        return ops.iter().map(|_| vec![-2]).collect();
+    }
+    let mut conn = new_connection(
+        opt(first[1]),
+        first[2] as usize,
+        opt(first[3]).map(|x| x as u64),
+        first[4] as u16,
+        first[5] as usize,
+    );
+    out.push(obs(0, &conn, &[]));
+    for op in &ops[1..] {
+        let o = match (op[0], op.len()) {
+            (1, n) if n >= 2 => match conn.datagrams().send(bytes_of(&op[2..]), op[1] != 0) {
+                Ok(()) => obs(0, &conn, &[]),
+                Err(SendDatagramError::UnsupportedByPeer) => obs(1, &conn, &[]),
+                Err(SendDatagramError::Disabled) => obs(2, &conn, &[]),
+                Err(SendDatagramError::TooLarge) => obs(3, &conn, &[]),
+                Err(SendDatagramError::Blocked(b)) => obs(4, &conn, &as_ints(&b)),
+            },
+            (2, 1) => match conn.datagrams().max_size() {
+                Some(v) => obs(0, &conn, &[v as i128]),
+                None => obs(1, &conn, &[]),
+            },
+            (3, 3) => {
+                let mut buf = vec![0u8; op[1] as usize];
+                let wrote = conn.datagrams.write(&mut buf, op[2] as usize);
+                obs(wrote as i128, &conn, &as_ints(&buf[op[1] as usize..]))
+            }
+            (4, n) if n >= 2 => {
+                let window = opt(op[1]);
+                match conn.datagrams.received(
+                    Datagram {
+                        data: bytes_of(&op[2..]),
+                    },
+                    &window,
+                ) {
+                    Ok(was_empty) => obs(0, &conn, &[was_empty as i128]),
+                    Err(e) if e.code == TransportErrorCode::PROTOCOL_VIOLATION => {
+                        obs(1, &conn, &[])
+                    }
+                    Err(_) => obs(9, &conn, &[]),
+                }
+            }
+            (5, 1) => match conn.datagrams().recv() {
+                Some(b) => obs(1, &conn, &as_ints(&b)),
+                None => obs(0, &conn, &[]),
+            },
+            (6, 2) => {
+                let dropped = conn.datagrams.drop_oversized(op[1] as usize);
+                obs(dropped as i128, &conn, &[])
+            }
+            (7, 1) => {
+                let v = conn.datagrams().send_buffer_space();
+                obs(0, &conn, &[v as i128])
+            }
+            (8, 2) => {
+                conn.path.mtud = MtuDiscovery::disabled(op[1] as u16, op[1] as u16);
+                obs(0, &conn, &[])
+            }
+            (9, 2) => {
+                conn.peer_params.max_datagram_frame_size =
+                    opt(op[1]).map(|v| VarInt::from_u64(v as u64).unwrap());
+                obs(0, &conn, &[])
+            }
+            _ => vec![-1],
+        };
+        out.push(o);
+    }
+    out
+}
 
 /// Interpret `ops` for component `comp`; `None` if `comp` is not served by this module.
-pub(crate) fn run(_comp: &str, _ops: &Ops) -> Option<Outs> {
-    None
+pub(crate) fn run(comp: &str, ops: &Ops) -> Option<Outs> {
+    match comp {
+        "datagrams" => Some(datagrams(ops)),
+        _ => None,
+    }
 }
